@@ -363,7 +363,20 @@ func c20Exec(run *ev.Run, c ev.Case) {
 			}
 			for n := 0; n <= 31; n++ {
 				if n == 1 {
-					continue // a length of 1 is reserved for the 8-bit encodings
+					// a length of 1 is reserved for the 8-bit encodings: a decoder may refuse
+					// it, but if it decodes, it decodes one character from one byte
+					for v := 0; v < 256; v++ {
+						for _, tail := range [][]byte{{'Z'}, {'Z', 'Y', 'X'}, {0}} {
+							run.Eval(1)
+							run.Nontrivial(fmt.Sprintf("latin1:%d:1:%d:%d", enc, v, len(tail)))
+							in := append([]byte{byte(v)}, tail...)
+							got, consumed, err := dec.Decode(exactCopy(in), 1)
+							if err == nil && (got != string(rune(v)) || consumed != 1) {
+								viol("latin1-length-1", fmt.Sprintf("8-bit string (encoding %d) of 1 char from % x: got %q consumed %d, want %q consumed 1 (or an error)", enc, in, got, consumed, string(rune(v))), nil)
+							}
+						}
+					}
+					continue
 				}
 				for pos := 0; pos < n || (n == 0 && pos == 0); pos++ {
 					for v := 0; v < 256; v++ {
